@@ -50,10 +50,10 @@ BUILTIN_UP = {7: [1], 3: [8], 6: [8], 2: [8], 11: [10], 12: [10], 13: [10], 14: 
 ALIASES = {"list[int]": 3, "List[K]": 3, "Sequence[int]": 8, "dict[str,int]": 5, "Tuple[int,int]": 6,
            "Callable[[int],int]": 10}
 KIND_CLS = {"zero": 1, "int": 1, "empty": 2, "str": 2, "list": 3, "elist": 3, "etuple": 6,
-            "true": 7, "false": 7, "float": 4, "edict": 5,
+            "true": 7, "false": 7, "float": 4, "fnum": 4, "edict": 5,
             "partial": 11, "klass": 12, "func": 13, "builtin": 14, "cint": 16}
 KIND_TRUTHY = {"inst": True, "zero": False, "int": True, "empty": False, "str": True, "list": True,
-               "elist": False, "etuple": False, "true": True, "false": False, "float": False,
+               "elist": False, "etuple": False, "true": True, "false": False, "float": False, "fnum": True,
                "edict": False, "partial": True, "klass": True, "func": True, "builtin": True, "cint": True}
 # pool kinds whose value is callable() without being a bound method: functools.partial, a class
 # object, a plain function (on the instance, or a staticmethod of the robot class), a builtin
@@ -71,6 +71,73 @@ def pool_callable(kind, cid):
     return kind in CALLABLE_KINDS or (kind == "inst" and callable_cid(cid))
 UNKNOWN = 4999
 MISSING = object()
+
+# ---------------------------------------------------------------------------
+# attributes that "already have a value" through a descriptor / marker the framework binds
+# ---------------------------------------------------------------------------
+# preset value ["tunable", kind, truthy] = magicbot.tunable(default), ["reset", kind, truthy] =
+# magicbot.will_reset_to(default); the default is a float / int / str / bool, truthy or falsy.  What an
+# attribute is CALLED fixes its kind, so one NetworkTables key never changes type between the robots
+# of a batch.
+BOUND_KINDS = ["float", "int", "str", "bool"]
+BOUND_CLS = {"float": 4, "int": 1, "str": 2, "bool": 7}
+BOUND_NAMES = {"gain": "float", "kp": "float", "count": "int", "cells": "int", "tag": "str", "label": "str",
+               "flag": "bool", "inverted": "bool"}
+BOUND_POOL_KIND = {("float", True): "fnum", ("float", False): "float", ("int", True): "int", ("int", False): "zero",
+                   ("str", True): "str", ("str", False): "empty", ("bool", True): "true", ("bool", False): "false"}
+
+
+def bound_kind(name):
+    return BOUND_NAMES.get(name) or BOUND_KINDS[sum(ord(ch) for ch in name) % 4]
+
+
+def bound_default(kind, truthy):
+    return {"float": (0.0, 0.25), "int": (0, 7), "str": ("", "t"), "bool": (False, True)}[kind][1 if truthy else 0]
+
+
+def is_param(v):
+    return isinstance(v, list) and v[0] == "param"
+
+
+def is_bound(v):
+    return isinstance(v, list) and v[0] in ("tunable", "reset")
+
+
+def bound_oid(target, k, j):
+    """identity the model uses for 'the value the j-th preset of component class / mode k reads'"""
+    return (700 + 20 * k + j) if target == "c" else (860 + 10 * k + j)
+
+
+class BoundState:
+    """what the harness sees of a descriptor-backed attribute at one moment"""
+
+    def __init__(self, intact, in_dict, detail):
+        self.intact, self.in_dict, self.detail = intact, in_dict, detail
+
+
+def bound_state(obj, n, v, is_component):
+    """Is the attribute n of obj still what `n: T = tunable(d)` / `will_reset_to(d)` made it?
+    tunable: the class attribute is still that tunable, NOTHING is stored under n in obj.__dict__ and
+    obj.n reads d (AttributeError = not bound: 'abs');  will_reset_to: the class attribute is still the
+    marker and -- component, after _setup_reset_vars -- obj.__dict__[n] is d, -- mode -- nothing is stored."""
+    import inspect
+    from magicbot.magic_tunable import tunable
+    from magicbot.magic_reset import will_reset_to
+    d = bound_default(v[1], v[2])
+    cattr = inspect.getattr_static(type(obj), n, MISSING)
+    stored = vars(obj).get(n, MISSING)
+    if v[0] == "tunable":
+        try:
+            got = getattr(obj, n)
+        except AttributeError:
+            return MISSING
+        ok = isinstance(cattr, tunable) and stored is MISSING and type(got) is type(d) and got == d
+        return BoundState(ok, stored, "reads %r, __dict__ has %s" % (got, "nothing" if stored is MISSING else repr(stored)))
+    if is_component:
+        ok = isinstance(cattr, will_reset_to) and stored is not MISSING and type(stored) is type(d) and stored == d
+        return BoundState(ok, MISSING if ok else stored, "__dict__ has %s" % ("nothing" if stored is MISSING else repr(stored)))
+    ok = isinstance(cattr, will_reset_to) and stored is MISSING
+    return BoundState(ok, stored, "__dict__ has %s" % ("nothing" if stored is MISSING else repr(stored)))
 
 ATTR_NAMES = ["a", "b", "c", "d", "x", "y", "a_b", "b_c", "gyro", "motor"]
 COMP_NAMES = ["a", "b", "c", "d", "e", "a_b", "x"]
@@ -261,6 +328,8 @@ def build(spec):
             v = False
         elif kind == "float":
             v = 0.0
+        elif kind == "fnum":
+            v = 1000.5 + oid
         elif kind == "edict":
             v = {}
         elif kind == "partial":
@@ -305,6 +374,10 @@ def build(spec):
     def snap():
         b.snaps.append(raw_snapshot(b))
 
+    def make_bound(v):
+        d = bound_default(v[1], v[2])
+        return magicbot.tunable(d) if v[0] == "tunable" else magicbot.will_reset_to(d)
+
     # component classes
     comp_classes = []
     for k, cc in enumerate(spec["comps"]):
@@ -313,12 +386,19 @@ def build(spec):
         for n, lvl, form in cc["hints"]:
             ann[lvl if cc["base"] else 1][n] = form
         init_presets = []
+        bound_ann = [dict(), dict()]
         for n, where, v in cc["presets"]:
             if where == "init":
                 init_presets.append((n, v))
             else:
                 lvl = 0 if (where == "class0" and cc["base"]) else 1
-                levels[lvl][n] = val(v)
+                if is_bound(v):
+                    levels[lvl][n] = make_bound(v)
+                    for hn, hl, hf in cc["hints"]:      # `n: float = tunable(..)`: the annotation is there when the class is made
+                        if hn == n and (hl if cc["base"] else 1) == lvl and hf[0] == "cls" and hf[1] in BUILTIN:
+                            bound_ann[lvl][n] = BUILTIN[hf[1]]
+                else:
+                    levels[lvl][n] = val(v)
         init = cc["init"]
         if init is not None or init_presets:
             params = [p for p, _ in (init or [])]
@@ -327,7 +407,7 @@ def build(spec):
                 def __init__(self, **kw):
                     b.ctor_log.append((self, dict(kw)))
                     for n, v in init_presets:
-                        if isinstance(v, list):
+                        if is_param(v):
                             setattr(self, n, kw[v[1]])
                         else:
                             setattr(self, n, val(v))
@@ -346,7 +426,7 @@ def build(spec):
             initf.__name__ = "__init__"
         for lvl in (0, 1):
             levels[lvl]["__module__"] = NS
-            levels[lvl]["__annotations__"] = {}
+            levels[lvl]["__annotations__"] = dict(bound_ann[lvl])
         init_lvl = cc.get("init_level", 1) if cc["base"] else 1
         levels[init_lvl]["__init__"] = initf
         levels[1 if not cc["base"] else (k % 2)]["execute"] = lambda self: None
@@ -380,11 +460,14 @@ def build(spec):
         d = {"__module__": NS, "MODE_NAME": md["name"],
              "__annotations__": {n: hint_obj(f) for n, f in md["hints"]}}
         initp = []
+        based = {"__module__": NS}
         for n, where, v in md["presets"]:
             if where == "init":
                 initp.append((n, v))
+            elif is_bound(v):
+                (based if where == "base" else d)[n] = make_bound(v)
             else:
-                d[n] = val(v)
+                (based if where == "base" else d)[n] = val(v)
         if initp:
             def minit(self, initp=initp):
                 for n, v in initp:
@@ -392,7 +475,12 @@ def build(spec):
             d["__init__"] = minit
         if md["setup"]:
             d["setup"] = lambda self: snap()
-        mc = type("M%d" % k, (object,), d)
+        mbase = type("MB%d" % k, (object,), based) if len(based) > 1 else object
+        mann = d["__annotations__"]
+        d["__annotations__"] = {n: t for n, t in mann.items() if is_bound(dict((x[0], x[2]) for x in md["presets"]).get(n))
+                                and isinstance(t, type)}
+        mc = type("M%d" % k, (mbase,), d)
+        mc.__annotations__ = mann
         cls_of[mode_cid(k)] = mc
         b.modes.append(mc())
     # the robot class
@@ -487,9 +575,13 @@ def raw_snapshot(b):
         c = getattr(r, n, MISSING)
         if c is MISSING or not any(c is x for x, _ in b.ctor_log):
             continue
-        out["comps"][n] = (c, [getattr(c, a, MISSING) for a in watch_comp(b, form[1])])
+        bound = {x[0]: x[2] for x in b.spec["comps"][form[1]]["presets"] if is_bound(x[2])}
+        out["comps"][n] = (c, [bound_state(c, a, bound[a], True) if a in bound else getattr(c, a, MISSING)
+                               for a in watch_comp(b, form[1])])
     for k, m in enumerate(b.modes):
-        out["modes"].append([getattr(m, a, MISSING) for a in watch_mode(b, k)])
+        bound = {x[0]: x[2] for x in b.spec["modes"][k]["presets"] if is_bound(x[2])}
+        out["modes"].append([bound_state(m, a, bound[a], False) if a in bound else getattr(m, a, MISSING)
+                             for a in watch_mode(b, k)])
     return out
 
 
@@ -577,6 +669,8 @@ def _start(spec, b, res, modes):
     res["order"] = order
 
     def canon(v):
+        if isinstance(v, BoundState):        # "bound": intact; else what sits in __dict__ over it
+            return "bound" if v.intact else ("other" if v.in_dict is MISSING else canon(v.in_dict))
         if v is MISSING:
             return "abs"
         if v is None:
@@ -592,14 +686,21 @@ def _start(spec, b, res, modes):
         ctor.append([n, comp_oid.get(n, UNKNOWN), [[p, canon(v)] for p, v in kws.items()]])
     res["ctor"] = ctor
 
+    kof = {n: form[1] for n, lvl, form in spec["rhints"] if form[0] == "comp"}
+
+    def named(vals, names, presets, target, k):
+        idx = {x[0]: j for j, x in enumerate(presets) if is_bound(x[2])}
+        return [bound_oid(target, k, idx[a]) if (c == "bound" and a in idx) else c for a, c in zip(names, [canon(v) for v in vals])]
+
     def canon_snap(s):
         out = []
         for n in order:
-            if n in s["comps"]:
-                out.append([n, [canon(v) for v in s["comps"][n][1]]])
+            if n in s["comps"] and n in kof:
+                out.append([n, named(s["comps"][n][1], watch_comp(b, kof[n]), spec["comps"][kof[n]]["presets"], "c", kof[n])])
             else:
                 out.append([n, None])
-        return {"comps": out, "modes": [[canon(v) for v in m] for m in s["modes"]]}
+        return {"comps": out, "modes": [named(m, watch_mode(b, j), spec["modes"][j]["presets"], "m", j)
+                                        for j, m in enumerate(s["modes"])]}
     res["final"] = canon_snap(final)
     res["setups"] = [canon_snap(s) for s in b.snaps]
     return res
@@ -763,6 +864,10 @@ def analyse(spec, inherited):
             "name_reqs": name_reqs}
 
 
+def bound_text(v):
+    return "%s(%r)" % ("tunable" if v[0] == "tunable" else "will_reset_to", bound_default(v[1], v[2]))
+
+
 def classify(m, inj, comps, c, a):
     pa = "%s_%s" % (c, a)
     names = [x[0] for x in comps]
@@ -781,7 +886,10 @@ def oracle(spec, res):
     faults = an["faults"]
     if res["outcome"] != 0:
         if not faults:
-            v.append(("spurious-startup-failure", "startup raised %s although every request can be served" % res.get("exc")))
+            bound = ["%s.%s = %s" % (n, x[0], bound_text(x[2])) for n, k, _ in an["comps"] for x in spec["comps"][k]["presets"] if is_bound(x[2])]
+            bound += ["%s.%s = %s" % (md["name"], x[0], bound_text(x[2])) for md in spec["modes"] for x in md["presets"] if is_bound(x[2])]
+            v.append(("spurious-startup-failure", "startup raised %s although every request can be served%s" % (
+                res.get("exc"), (" (attributes that already have a value: %s)" % ", ".join(bound)) if bound else "")))
         elif res["outcome"] == 3:
             v.append(("not-an-injection-error", "startup raised %s" % res.get("exc")))
         elif all(f[4] == 1 for f in faults) and res["outcome"] != 1:
@@ -811,7 +919,7 @@ def oracle(spec, res):
                 return
             cc = spec["comps"][kmap[n]]
             names = watch_comp(b, kmap[n])
-            presets = {x[0]: x[2] for x in cc["presets"]}
+            presets = {x[0]: (["bound", bound_oid("c", kmap[n], j)] if is_bound(x[2]) else x[2]) for j, x in enumerate(cc["presets"])}
             kws = dict(an["exp_ctor"][n])
             for a, got in zip(names, vals):
                 if ("c", n, a) in an["exp_attr"]:
@@ -821,25 +929,40 @@ def oracle(spec, res):
                 else:
                     if a in presets:
                         pv = presets[a]
-                        want = kws.get(pv[1], "abs") if isinstance(pv, list) else ("none" if pv is None else pv)
+                        want = kws.get(pv[1], "abs") if is_param(pv) else pv[1] if isinstance(pv, list) else ("none" if pv is None else pv)
                     elif a == "logger":
                         want = "other"
                     else:
                         want = "abs"
                     if got != want:
+                        if a in presets and isinstance(presets[a], list) and presets[a][0] == "bound":
+                            bv = [x[2] for x in cc["presets"] if x[0] == a][0]
+                            v.append(("descriptor-backed-attribute-touched", "%s: %s.%s = %s already has a value but is no longer the untouched "
+                                      "attribute: observed %r (an object id = that robot object was written into __dict__ under the name; 'abs' = "
+                                      "reading it raises AttributeError), expected %r (clause: 'attributes that already have a value are left "
+                                      "untouched')" % (when, n, a, bound_text(bv), got, want)))
+                            return
                         v.append(("touched", "%s: %s.%s (preset/private/unannotated) is %r, was %r" % (when, n, a, got, want)))
                         return
         for j, vals in enumerate(sn["modes"]):
             md = spec["modes"][j]
-            presets = {x[0]: x[2] for x in md["presets"]}
+            presets = {x[0]: (bound_oid("m", j, i) if is_bound(x[2]) else x[2]) for i, x in enumerate(md["presets"])}
+            boundp = {x[0] for x in md["presets"] if is_bound(x[2])}
             for a, got in zip(watch_mode(b, j), vals):
                 if ("m", j, a) in an["exp_attr"]:
                     want = an["exp_attr"][("m", j, a)]
                     kind = "wrong-object"
                 else:
-                    kind = "touched"
+                    kind = "descriptor-backed-attribute-touched" if a in boundp else "touched"
                     want = ("none" if presets[a] is None else presets[a]) if a in presets else ("other" if a == "logger" else "abs")
                 if got != want:
+                    if a in boundp:
+                        bv = [x[2] for x in md["presets"] if x[0] == a][0]
+                        v.append((kind, "%s: mode %s.%s = %s already has a value but is no longer the untouched attribute: observed %r (an "
+                                  "object id = that robot object was written into __dict__ under the name; 'abs' = reading it raises "
+                                  "AttributeError), expected %r (clause: 'attributes that already have a value are left untouched')"
+                                  % (when, md["name"], a, bound_text(bv), got, want)))
+                        return
                     v.append((kind, "%s: mode %s.%s is %r, expected %r" % (when, md["name"], a, got, want)))
                     return
     for i, sn in enumerate(res["setups"]):
@@ -868,6 +991,13 @@ def emit_case(spec, res):
     def cval(v):
         return "None" if v is None else "(Some %s)" % cobj(v)
 
+    def cpval(v, boid):
+        if is_param(v):
+            return "PParam %s" % coq_string(v[1])
+        if is_bound(v):         # the value the bound descriptor reads, an object of its own
+            return "PBound (Some (Build_obj %s %s %s))" % (coq_nat(boid), coq_nat(BOUND_CLS[v[1]]), coq_bool(bool(v[2])))
+        return "PConst %s" % cval(v)
+
     def chints(l):
         return coq_list(["(%s, %s)" % (coq_string(n), coq_hint(f)) for n, f in l])
     a_classes, b_classes = set(c for c, _ in an_info.values()), set()
@@ -894,8 +1024,8 @@ def emit_case(spec, res):
     def classdef(k):
         cc = spec["comps"][k]
         pres = []
-        for n, where, v in cc["presets"]:
-            pres.append("(%s, %s)" % (coq_string(n), "PParam %s" % coq_string(v[1]) if isinstance(v, list) else "PConst %s" % cval(v)))
+        for j, (n, where, v) in enumerate(cc["presets"]):
+            pres.append("(%s, %s)" % (coq_string(n), cpval(v, bound_oid("c", k, j))))
         note([f for _, f in comp_hints(cc)] + [f for _, f in (cc["init"] or [])])
         return "(Build_classdef %s %s %s %s %s)" % (coq_nat(comp_cid(k)), chints(cc["init"] or []), chints(comp_hints(cc)),
                                                     coq_list(pres), coq_bool(cc["setup"]))
@@ -910,10 +1040,10 @@ def emit_case(spec, res):
         else:
             rh.append("(%s, RNonType)" % coq_string(n))
     modes = []
-    for md in spec["modes"]:
+    for mk, md in enumerate(spec["modes"]):
         note([f for _, f in md["hints"]])
         modes.append("(Build_modedef %s %s %s %s)" % (coq_string(md["name"]), chints([(n, f) for n, f in md["hints"]]),
-                     coq_list(["(%s, %s)" % (coq_string(n), cval(v)) for n, _, v in md["presets"]]), coq_bool(md["setup"])))
+                     coq_list(["(%s, %s)" % (coq_string(n), cpval(v, bound_oid("m", mk, j))) for j, (n, _, v) in enumerate(md["presets"])]), coq_bool(md["setup"])))
     robot = "(Build_robot %s %s %s)" % (r_dir, coq_list(rh), coq_list(modes))
     up = parents_of(spec)
     pairs = coq_list(["(%s, %s)" % (coq_nat(a), coq_nat(b)) for a in sorted(a_classes) for b in sorted(b_classes) if is_sub(up, a, b)])
@@ -967,7 +1097,7 @@ FALSY = ("zero", "empty", "elist", "etuple", "false", "float", "edict")
 OK_REL = ["name"] * 8 + ["prefix"] * 4 + ["both"] * 3 + ["none_prefix"] * 2 + ["subclass"] * 3 + ["falsy"] * 4 + [
     "preset_class", "preset_init", "preset_none", "private", "alias_ok", "alias_ok", "compref", "compref",
     "compref", "compref", "logger", "inherited", "fwd", "object"] + ["callable"] * 4 + ["callable_prefix"] * 2 + [
-    "inherited_callable"] + ["oddname"] * 3 + ["oddname_both", "oddname_prefix"]
+    "inherited_callable"] + ["oddname"] * 3 + ["oddname_both", "oddname_prefix"] + ["tunable"] * 4 + ["reset"] * 2
 CTOR_REL = ["name"] * 6 + ["prefix"] * 3 + ["both", "none_prefix", "subclass", "falsy", "falsy", "alias_ok", "object",
                                             "fwd", "inherited"] + ["callable"] * 3 + ["callable_prefix", "inherited_callable"] + [
                                                 "oddname", "oddname", "oddname_both", "oddname_prefix"]
@@ -1172,6 +1302,24 @@ class Gen:
                     self.attr(pa, self.fresh)
                 e = self.attr(a, mk)
                 form = self.form_of_entry(e, a, cname)
+        elif rel in ("tunable", "reset"):
+            # `a: float = tunable(0.25)` / `will_reset_to(..)`: already has a value (once the framework bound it), whatever
+            # the robot stores under the same name or under "<cname>_<a>"
+            a = r.choice(list(BOUND_NAMES) * 2 + [x for x in a_pool if x not in self.comp_names and not x.startswith("_")])
+            pa = "%s_%s" % (cname, a)
+            kind = bound_kind(a)
+            same = lambda: self.obj(BOUND_POOL_KIND[(kind, r.random() < 0.7)])
+            x = r.random()
+            if x < 0.35:
+                self.attr(a, same)
+            elif x < 0.5:
+                self.attr(pa, same)
+            elif x < 0.6:
+                self.attr(a, self.fresh)
+            elif x < 0.65:
+                self.attr(a, lambda: None)
+            preset = [a, r.choice(["class0", "class1"]), [rel, kind, r.random() < 0.65]]
+            form = ["cls", BOUND_CLS[kind]]
         elif rel == "absent":
             form = ["cls", r.choice([0, 20, 1])]
         elif rel == "wrongtype":
@@ -1220,6 +1368,8 @@ class Gen:
                 lvl = r.choice([0, 1]) if cc["base"] else 1
                 if (a, lvl) in seen or (a in [x[0] for x in seen] and not cc["base"]):
                     continue
+                if (a in pres and is_bound(pres[a][2])) or (preset and is_bound(preset[2]) and a in [x[0] for x in seen]):
+                    continue            # one annotation per descriptor-backed name (`d: int = tunable(0.25)` is another story)
                 seen[(a, lvl)] = form
                 cc["hints"].append([a, lvl, form])
                 if preset and a not in pres:
@@ -1264,7 +1414,8 @@ class Gen:
                     continue
                 md["hints"].append([a, form])
                 if preset:
-                    pres[a] = [a, "init" if preset[1] == "init" else "class", preset[2]]
+                    pres[a] = [a, "init" if preset[1] == "init" else "base" if (is_bound(preset[2]) and preset[1] == "class0") else "class",
+                               preset[2]]
             md["presets"] = list(pres.values())
             modes.append(md)
         # a few unrelated robot attributes
@@ -1350,7 +1501,7 @@ def repair(spec, keep, rng):
         else:
             holder[key] = [x for x in holder[key] if x is not e]
             if key == "init":
-                holder["presets"] = [x for x in holder["presets"] if not (isinstance(x[2], list) and x[2][1] == a)]
+                holder["presets"] = [x for x in holder["presets"] if not (is_param(x[2]) and x[2][1] == a)]
                 if not holder["init"]:
                     holder["init"] = None
     return spec
@@ -1609,6 +1760,118 @@ def fault_spec(rng, tkind, fault, siblings):
     return spec
 
 
+BOUND_TARGETS = ["component-class", "component-base-class", "mode-class", "mode-base-class"]
+BOUND_ROBOT = ["no-robot-attr", "same-name-right-type", "same-name-wrong-type", "prefixed-name-right-type", "same-name-None"]
+
+
+def bound_specs(rng, reps=1):
+    """An annotated attribute that already has a value through a descriptor / marker the framework binds,
+    enumerated:  {magicbot.tunable, magicbot.will_reset_to}
+      x where {component class, component base class, autonomous-mode class, mode base class}
+      x what the robot stores {nothing, an object of that type under the same name, a wrong-typed one, one of that type
+        under '<target>_<name>', None under the same name}
+      x type {float, int, str, bool} (default truthy / falsy alternating),
+    every other one embedded in a random well-formed robot; the target also has an ordinary request that IS injected.
+    Such a robot must start, the attribute must still read its own value, nothing may be written under its name."""
+    out = []
+    n = 0
+    for _ in range(reps):
+        for marker in ("tunable", "reset"):
+            for target in BOUND_TARGETS:
+                for rstate in BOUND_ROBOT:
+                    for kind in BOUND_KINDS:
+                        n += 1
+                        out.append(bound_spec(rng, marker, target, rstate, kind, truthy=(n // 4) % 2 == 0, embed=n % 2 == 1,
+                                              annotated=n % 9 != 0))
+    return out
+
+
+def bound_spec(rng, marker, target, rstate, kind, truthy, embed, annotated=True):
+    if embed:
+        spec = repair(Gen(rng, "valid").make(), 0, rng)
+    else:
+        spec = {"data_classes": [], "pool": [], "rattrs": [], "rhints": [], "rbase": rng.random() < 0.3,
+                "create_in_base": rng.random() < 0.5, "comps": [], "modes": [], "path": rng.choice(["create", "create", "init"]),
+                "env": rand_env(rng)}
+    if 20 not in {d[0] for d in spec["data_classes"]}:
+        spec["data_classes"].append([20, 0])
+    used = {x[0] for x in spec["rattrs"]} | {h[0] for h in spec["rhints"]} | {m["name"] for m in spec["modes"]}
+    for cc in spec["comps"]:
+        used |= {h[0] for h in cc["hints"]} | {x[0] for x in cc["presets"]} | {p[0] for p in (cc["init"] or [])}
+    tname = [t for t in ("tc", "tm", "tq", "tz") if t not in used][0]
+    cands = [a for a in list(BOUND_NAMES) + ATTR_NAMES + ODD_NAMES if bound_kind(a) == kind and not a.startswith("_")
+             and a not in used and "%s_%s" % (tname, a) not in used]
+    nm = rng.choice(cands[:2] * 3 + cands)
+    dep = [d for d in ("dep", "dep2", "dep3") if d not in used][0]
+
+    def new_obj(pk, cid=0):
+        if pk in SINGLETONS:
+            for x in spec["pool"]:
+                if x[1] == pk:
+                    return x[0]
+        oid = len(spec["pool"]) + 1
+        spec["pool"].append([oid, pk, cid])
+        return oid
+    lvl = rng.choice(["class", "create"] + (["base"] if spec["rbase"] else []))
+    if rstate == "same-name-right-type":
+        spec["rattrs"].append([nm, lvl, "plain", new_obj(BOUND_POOL_KIND[(kind, rng.random() < 0.7)])])
+    elif rstate == "same-name-wrong-type":
+        spec["rattrs"].append([nm, lvl, "plain", new_obj("inst", 20)])
+    elif rstate == "prefixed-name-right-type":
+        spec["rattrs"].append(["%s_%s" % (tname, nm), lvl, "plain", new_obj(BOUND_POOL_KIND[(kind, rng.random() < 0.7)])])
+    elif rstate == "same-name-None":
+        spec["rattrs"].append([nm, lvl, "plain", None])
+    spec["rattrs"].append([dep, rng.choice(["class", "create"]), "plain", new_obj("inst", 20)])
+    spec["rattrs"].sort(key=lambda x: x[0])
+    pv = [marker, kind, bool(truthy)]
+    form = ["cls", BOUND_CLS[kind]]
+    if target.startswith("component"):
+        base = target == "component-base-class"
+        hints = [[dep, 1, ["cls", 20]]]
+        if annotated:
+            hints.insert(rng.randint(0, 1), [nm, 0 if (base and rng.random() < 0.7) else 1, form])
+        spec["comps"].append({"base": base, "hints": hints, "init": None, "init_level": 1,
+                              "presets": [[nm, "class0" if base else "class1", pv]], "setup": rng.random() < 0.7, "falsy": False})
+        spec["rhints"].insert(rng.randint(0, len(spec["rhints"])), [tname, "class", ["comp", len(spec["comps"]) - 1]])
+    else:
+        hints = [[dep, ["cls", 20]]]
+        if annotated:
+            hints.insert(rng.randint(0, 1), [nm, form])
+        spec["modes"].insert(rng.randint(0, len(spec["modes"])),
+                             {"name": tname, "hints": hints, "presets": [[nm, "base" if target == "mode-base-class" else "class", pv]],
+                              "setup": rng.random() < 0.7})
+    return spec
+
+
+def bound_attrs(spec, an):
+    """every descriptor-backed preset of the robot, classified: (marker, where, annotated?, what the robot stores)"""
+    up = parents_of(spec)
+    inj = dict(an["inj"])
+    for n, k, oid in an["comps"]:
+        inj[n] = oid
+    out = []
+
+    def one(tn, where, x, hinted):
+        T = BOUND_CLS[x[2][1]]
+        rs = "no-robot-attr"
+        for key, label in ((x[0], "same-name"), ("%s_%s" % (tn, x[0]), "prefixed-name")):
+            if key in inj:
+                rs = "%s-%s" % (label, "right-type" if is_sub(up, an["info"][inj[key]], T) else "wrong-type")
+                break
+        out.append((x[2][0] if x[2][0] == "tunable" else "will_reset_to", where, x[2][1] + ("" if x[2][2] else "-falsy"),
+                    "annotated" if hinted else "unannotated", rs))
+    for n, k, _ in an["comps"]:
+        cc = spec["comps"][k]
+        for x in cc["presets"]:
+            if is_bound(x[2]):
+                one(n, "component-base-class" if (cc["base"] and x[1] == "class0") else "component-class", x, x[0] in [h[0] for h in cc["hints"]])
+    for md in spec["modes"]:
+        for x in md["presets"]:
+            if is_bound(x[2]):
+                one(md["name"], "mode-base-class" if x[1] == "base" else "mode-class", x, x[0] in [h[0] for h in md["hints"]])
+    return out
+
+
 def load_corpus():
     d = os.path.join(CORPUS, "C08")
     out = []
@@ -1735,7 +1998,7 @@ def shrink(spec, fp):
                 c = copy.deepcopy(sp)
                 pn = c["comps"][k]["init"][i][0]
                 del c["comps"][k]["init"][i]
-                c["comps"][k]["presets"] = [x for x in c["comps"][k]["presets"] if not (isinstance(x[2], list) and x[2][1] == pn)]
+                c["comps"][k]["presets"] = [x for x in c["comps"][k]["presets"] if not (is_param(x[2]) and x[2][1] == pn)]
                 if not c["comps"][k]["init"]:
                     c["comps"][k]["init"] = None
                 yield c
@@ -1752,6 +2015,10 @@ def shrink(spec, fp):
             for i in range(len(md["hints"])):
                 c = copy.deepcopy(sp)
                 del c["modes"][j]["hints"][i]
+                yield c
+            for i in range(len(md["presets"])):
+                c = copy.deepcopy(sp)
+                del c["modes"][j]["presets"][i]
                 yield c
         for i in range(len(sp["rattrs"])):
             c = copy.deepcopy(sp)
@@ -1830,7 +2097,9 @@ def run(ctx):
     specs += nspecs
     fspecs = fault_specs(ctx.rng, 1 if ctx.tier == "quick" else 6)
     specs += fspecs
-    while len(specs) < ncorpus + n_random + len(nspecs) + len(fspecs):      # the enumerations do not eat into the random part
+    bspecs = bound_specs(ctx.rng, 1 if ctx.tier == "quick" else 6)
+    specs += bspecs
+    while len(specs) < ncorpus + n_random + len(nspecs) + len(fspecs) + len(bspecs):      # the enumerations do not eat into the random part
         specs.append(gen_spec(ctx.rng))
     outs = run_many(specs)
     cases, terms = [], []
@@ -1851,6 +2120,9 @@ def run(ctx):
         if not an["faults"]:
             ctx.count("fault-free|FMS-%s|%s" % ("attached" if env["fms"] else "not-attached",
                                                 "with-modes" if any(md["hints"] for md in spec["modes"]) else "no-mode-request"))
+        for marker, where, kind, hinted, rs in bound_attrs(spec, an):
+            ctx.count("already-has-value-by=%s|%s|%s|robot:%s" % (marker, where, hinted, rs))
+            ctx.count("already-has-value-type=%s|%s" % (marker, kind))
         if "tag" in spec:
             ctx.count("placed-fault=%s|FMS-%s" % (spec["tag"], "attached" if env["fms"] else "not-attached"))
         ctx.count("outcome=%s" % ["started", "MagicInjectError", "TypeError", "other"][res["outcome"]])
@@ -1928,7 +2200,12 @@ def run(ctx):
                 "half of every forced relation and 40% of the random robots start with the FMS attached; unservable requests are also "
                 "placed deliberately: 13 (constructors 15) failure kinds x {component attribute, constructor parameter, "
                 "autonomous-mode attribute} x {FMS attached, not attached} x {alone, among well-formed components / modes} "
-                "(placed-fault=*, fault-vs-fms=*), "
+                "(placed-fault=*, fault-vs-fms=*); attributes that already have a value through a descriptor / marker the framework "
+                "binds -- `n: float = magicbot.tunable(0.25)`, `n: bool = magicbot.will_reset_to(False)`, float/int/str/bool, truthy and "
+                "falsy defaults -- are enumerated {tunable, will_reset_to} x {component class, component base class, mode class, mode "
+                "base class} x {nothing, right-typed, wrong-typed, prefixed right-typed, None under the same name on the robot} x type "
+                "and drawn in the random part (already-has-value-by=*): observed is whether the class attribute is still the descriptor, "
+                "what obj.n reads and what sits in obj.__dict__ under n, "
                 "then 60% fault-free / 30% one planted fault / 10% wild; non-trivial = started with >= 2 components and a "
                 "cross-component reference or >= 3 injected attributes, or exactly one fault",
         "samples": samples, "exhaustive": False, "corpus_cases": ncorpus})
